@@ -72,7 +72,7 @@ def generate(prop, reg, tier, plan):
             if not cc.trusted and callee not in done:
                 work.append(cc)
     obs = list(eng.obligs)
-    lemmas = [l for l in reg.lemmas.values() if prop in l.props]
+    lemmas = [l for l in reg.lemmas.values() if prop in l.props or l.name in reg.used_lemmas]
     for lem in lemmas:
         try:
             obs += lemma_obligations(reg, lem)
